@@ -85,3 +85,17 @@ def custom(ctx):
         ctx.cov["diag_mismatches_warning_only"] = ctx.cov.get("diag_mismatches_warning_only", 0) + nd
         if nd:
             ctx.notes.append("warning: %d cases agree on the observable trace but differ in internal diagnostics (state/counter/queue)" % nd)
+    # back-pressure through the real builder/server/accept thread (stream `bld` of the server group: its own driver and harness):
+    # while every service answers Pending to its readiness check no service call starts, the dispatched connections wait in the
+    # worker's queue (and count against its limit), and all of them are served, in order, once readiness returns
+    import common
+    from props.srvlib import bld_stream, DRIVER
+    try:
+        common.build_driver("server")
+        hbin, _ = common.build_harness("h_server")
+        bst = bld_stream(ctx, ("C07", "C01", "C02"), ["b", "cb", "b", "ab"], 48, 1000, ls=(1, 2, 3, 4))
+        bst.impl_cmd = [hbin, "bld"]
+        bst.model_cmd = [DRIVER, "bld"]
+        ctx.run_stream(bst)
+    except common.BuildError as e:
+        ctx.report("build-broken", {"what": "correspondence C07/bld cannot be run: %s" % str(e)[-2000:]}, nfi=True)
